@@ -178,6 +178,9 @@ func admission(chain string, ns string, r *vx.Report) {
 			}
 		}
 	})
+	if e.HarnessErr != "" {
+		r.HarnessErrs = append(r.HarnessErrs, fmt.Sprintf("admission chain %q on %s: %s", chain, ns, e.HarnessErr))
+	}
 	if len(e.Panics) > 0 {
 		violate("admission: panic", "chain %q on %s: %v", chain, ns, e.Panics)
 	}
@@ -497,6 +500,9 @@ func eventMiddleware(c evCase, chain string, r *vx.Report) {
 			}
 		}
 	})
+	if e.HarnessErr != "" {
+		r.HarnessErrs = append(r.HarnessErrs, "event middleware case: "+e.HarnessErr)
+	}
 	if len(e.Panics) > 0 {
 		violate("event middleware: panic", "%v", e.Panics)
 	}
@@ -654,6 +660,9 @@ func eventMiddlewareMulti(handlers []string, chain string, frames []string, r *v
 			}
 		}
 	})
+	if e.HarnessErr != "" {
+		r.HarnessErrs = append(r.HarnessErrs, "event middleware case: "+e.HarnessErr)
+	}
 	if len(e.Panics) > 0 {
 		violate("event middleware: panic", "%v", e.Panics)
 	}
